@@ -222,7 +222,7 @@ pub fn build(kind: &str, recv: &str, other: &str, nargs: usize) -> Option<Progra
 /// negative cases: (name, source) that must be rejected with a diagnostic (never accepted, never a panic)
 fn negatives() -> Vec<(&'static str, String)> {
     let head = "trait Tr { fn m(Self) -> string; }\ntrait Tq { fn m(Self) -> string; }\nstruct S { a: int32 }\nstruct N { a: int32 }\nimpl Tr for S { fn m(self: S) -> string { \"s\" } }\nimpl Tq for S { fn m(self: S) -> string { \"q\" } }\n";
-    vec![
+    let v = vec![
         ("dyn-without-impl", format!("{}fn main() {{ let n = N {{ a: 1 }}; let d: dyn Tr = n; string_println(Tr::m(d)) }}\n", head)),
         ("dyn-without-impl-primitive", format!("{}fn main() {{ let d: dyn Tr = 1; string_println(Tr::m(d)) }}\n", head)),
         ("ambiguous-two-bounds", format!("{}fn both[U: Tr + Tq](u: U) -> string {{ u.m() }}\nfn main() {{ string_println(both(S {{ a: 1 }})) }}\n", head)),
@@ -231,7 +231,31 @@ fn negatives() -> Vec<(&'static str, String)> {
         ("unknown-method", format!("{}fn main() {{ let x = S {{ a: 1 }}; string_println(x.zzz()) }}\n", head)),
         ("method-value-standalone", format!("{}fn main() {{ let x = S {{ a: 1 }}; let f = x.m; string_println(\"x\") }}\n", head)),
         ("trait-path-wrong-type", format!("{}fn main() {{ string_println(Tr::m(N {{ a: 1 }})) }}\n", head)),
-    ]
+    ];
+    // the same method name in two traits with every pair of arities 0..2 extra arguments, called in
+    // dot form with every argument count that fits at least one of them: ambiguous, so rejected
+    let mut v = v;
+    for na in 0..=2usize {
+        for nb in 0..=2usize {
+            for nargs in 0..=2usize {
+                if nargs != na && nargs != nb {
+                    continue;
+                }
+                let sig = |k: usize| (0..k).map(|_| ", int32").collect::<String>();
+                let prm = |k: usize| (0..k).map(|i| format!(", p{}: int32", i)).collect::<String>();
+                let args = (0..nargs).map(|i| format!("{}", i + 1)).collect::<Vec<_>>().join(", ");
+                let head2 = format!(
+                    "trait Ta {{ fn foo(Self{}) -> string; }}\ntrait Tb {{ fn foo(Self{}) -> string; }}\nstruct S {{ a: int32 }}\nimpl Ta for S {{ fn foo(self: S{}) -> string {{ \"a\" }} }}\nimpl Tb for S {{ fn foo(self: S{}) -> string {{ \"b\" }} }}\n",
+                    sig(na), sig(nb), prm(na), prm(nb)
+                );
+                let name_b: &'static str = Box::leak(format!("ambiguous-bounds-arity-{}-{}-call-{}", na, nb, nargs).into_boxed_str());
+                v.push((name_b, format!("{}fn both[U: Ta + Tb](u: U) -> string {{ u.foo({}) }}\nfn main() {{ string_println(both(S {{ a: 1 }})) }}\n", head2, args)));
+                let name_c: &'static str = Box::leak(format!("ambiguous-concrete-arity-{}-{}-call-{}", na, nb, nargs).into_boxed_str());
+                v.push((name_c, format!("{}fn main() {{ let x = S {{ a: 1 }}; string_println(x.foo({})) }}\n", head2, args)));
+            }
+        }
+    }
+    v
 }
 
 pub struct Methods;
@@ -244,7 +268,7 @@ impl Family for Methods {
         &["C17", "C01", "C02", "C03", "C04"]
     }
     fn rule(&self) -> &'static str {
-        "receiver types {int32,string,bool,S,E2,Box[int32],Box[string]} x 0-2 extra arguments x {inherent, trait with one impl, trait with impls for two receiver types, two traits with the same method name, dyn values through a destructured tuple, a struct field and an enum payload, a literal / constructor expression coerced to dyn directly, dyn values read back through array_get/vec_get (may be rejected: inference limitation, tagged)}; each program calls every applicable form (x.m(a), T::m(x,a), Tr::m(x,a), through a T: Tr bound in dot and path form, Tr::m(d,a) on the value coerced to dyn Tr) and prints each result; 8 negative programs (dyn coercion without impl, ambiguous method under two bounds/traits, unsatisfied bound, unknown method, standalone method value) that must be rejected with a diagnostic. non-trivial = programs with >= 2 impls; distinct = distinct source text"
+        "receiver types {int32,string,bool,S,E2,Box[int32],Box[string]} x 0-2 extra arguments x {inherent, trait with one impl, trait with impls for two receiver types, two traits with the same method name, dyn values through a destructured tuple, a struct field and an enum payload, a literal / constructor expression coerced to dyn directly, dyn values read back through array_get/vec_get (may be rejected: inference limitation, tagged)}; each program calls every applicable form (x.m(a), T::m(x,a), Tr::m(x,a), through a T: Tr bound in dot and path form, Tr::m(d,a) on the value coerced to dyn Tr) and prints each result; 8 + 30 negative programs (dyn coercion without impl, ambiguous method under two bounds/traits, unsatisfied bound, unknown method, standalone method value; the same method name in two traits at every pair of arities 0..2 called in dot form through two bounds and on a concrete receiver with every fitting argument count) that must be rejected with a diagnostic. non-trivial = programs with >= 2 impls; distinct = distinct source text"
     }
     fn cases(&self, _tier: Tier) -> Box<dyn Iterator<Item = Value> + '_> {
         let mut v = Vec::new();
